@@ -463,7 +463,7 @@ impl Check for C18 {
                 }
                 prefixes.sort_by(|a, b| a.bools().cmp(&b.bools()));
                 prefixes.dedup();
-                Target::Poplar1 { bits, input, param: AggParamSpec { level, prefixes } }
+                Target::Poplar1 { bits, input, param: AggParamSpec { level, prefixes, heads: vec![] } }
             }),
         ];
         (target, ctx_strategy(), any::<u64>(), any::<u64>(), any::<u64>(), prop_oneof![1 => Just(vec![]), 6 => prop::collection::vec(dev_strategy(), 1..=1), 3 => prop::collection::vec(dev_strategy(), 2..=3)])
